@@ -209,9 +209,15 @@ def check_masks(ctx: Ctx) -> None:
     ctx.ob("17.4-indices", cong, ok, "the masked values of a variable go to its window [i_min, i_max) of the full vector", node=(st or [g])[0])
     cfg = cfg_of(g)
     if st:
-        conds = [(norm_stmt(cfg.ast[t].test), v) for t, v in branch_conditions(cfg, cfg.node_of(st[0])) if cfg.kind[t] == "test"]
-        ok = ("key in masking_data_names", True) in conds
-        ctx.ob("17.4-indices", cong, ok, "only the masked variables are copied (and consume masked values)", node=st[0], stmt="copy iff the name is masked")
+        # mask and unmask are inverse: the masked values are consumed in the order in which
+        # get_x_mask_x_swap_order produces them, i.e. by a loop over the masking names
+        mk = ctx.index.method(BF, "BaseFormulation", "get_x_mask_x_swap_order")
+        p_mask = [a.arg for a in mk.args.args if a.arg != "self"][0]
+        prod_loops = [lp for lp in stmts_of(mk) if isinstance(lp, ast.For) and dotted(lp.iter) == p_mask]
+        q_mask = [a.arg for a in g.args.args if a.arg != "self"][0]
+        lp = next((lp_ for lp_ in stmts_of(g) if isinstance(lp_, ast.For) and st[0] in list(ast.walk(lp_))), None)
+        ok = bool(prod_loops) and lp is not None and dotted(lp.iter) == q_mask and isinstance(lp.target, ast.Name) and isinstance(unp[0].value.slice, ast.Name) and unp[0].value.slice.id == lp.target.id if unp else False
+        ctx.ob("17.4-indices", cong, bool(ok), "unmask must consume the masked values in the order in which the mask produces them (a loop over the masking names, window looked up by that name): looping over all the data names permutes the values as soon as the two orders differ", node=lp or st[0], stmt="masked values consumed in the order of the masking names")
     h = ctx.index.method(BF, "BaseFormulation", "_get_dv_indices")
     conh = cname(BF, "BaseFormulation", "_get_dv_indices")
     stt = [s for s in stmts_of(h) if isinstance(s, ast.Assign) and isinstance(s.targets[0], ast.Subscript) and isinstance(s.value, ast.Tuple) and len(s.value.elts) == 3]
@@ -256,6 +262,7 @@ def run(ctx: Ctx) -> None:
 
 # ---------------------------------------------------------------------------
 WITNESSES = [
+    {"name": "unmask-in-the-order-of-all-names", "file": BF, "old": "            for key in masking_data_names:\n                i_min, i_max, n_x = indices[key]\n                x_unmask[..., i_min:i_max] = x_masked[..., i_x : i_x + n_x]\n                i_x += n_x", "new": "            for key in all_data_names:\n                if key in masking_data_names:\n                    i_min, i_max, n_x = indices[key]\n                    x_unmask[..., i_min:i_max] = x_masked[..., i_x : i_x + n_x]\n                    i_x += n_x", "expect": "17.4"},
     {"name": "equilibrium-at-discipline-defaults", "file": IDF, "old": "        ).execute(current_x)", "new": "        ).execute()", "expect": "17.5"},
     {"name": "identity-rows-by-position-times-size", "file": CC, "old": "            o_min = 0\n            o_max = 0\n            for out in self.__output_couplings:\n", "new": "            for index, out in enumerate(self.__output_couplings):\n                o_min = index * self.__dv_len[out]\n                o_max = o_min\n", "expect": "17."},
     {"name": "mdf-keeps-couplings", "file": MDF, "old": "        # No couplings in design space (managed by MDA)\n        self._remove_couplings_from_ds()\n", "new": "", "expect": "17.1"},
